@@ -23,6 +23,8 @@ def instances(tier):
     its = 6 if q else 8
     for n in (1, 2, 3):
         out.append(Instance("alarms.n%d" % n, "h_sched", {"alarms": ["plain"] * n, "watches": [], "idles": ["plain"], "iters": its}, timeout=600))
+    for n, rm in ((3, 0), (3, 1), (4, 0), (4, 1)) if q else ((3, 0), (3, 1), (3, 2), (4, 0), (4, 1), (4, 2), (5, 0), (5, 2)):
+        out.append(Instance("alarms.n%d.remove%d_before_run" % (n, rm), "h_sched", {"alarms": ["plain"] * n, "watches": [], "idles": ["plain"], "iters": n + 3, "pre_remove": rm}, timeout=900))
     for beh in ALARM_BEH[1:]:
         out.append(Instance("alarm2.%s" % beh, "h_sched", {"alarms": [beh, "plain"], "watches": ["plain"] if beh == "remove_watch" else [], "idles": ["plain"], "iters": its}, timeout=600))
         if not q:
@@ -34,7 +36,7 @@ def instances(tier):
     return out
 
 
-def h_sched(I, alarms, watches, idles, iters):
+def h_sched(I, alarms, watches, idles, iters, pre_remove=None):
     import urwid
     from urwid.event_loop import select_loop
     from urwid.event_loop.select_loop import SelectEventLoop
@@ -190,6 +192,12 @@ def h_sched(I, alarms, watches, idles, iters):
         d = I.real("d%d" % i, 0)
         due[i] = state["now"] + d
         handles[i] = loop.alarm(d, mk_alarm(i, beh))
+    if pre_remove is not None:
+        r1 = loop.remove_alarm(handles[pre_remove])
+        r2 = loop.remove_alarm(handles[pre_remove])
+        removal_results.append((pre_remove, r1, r2))
+        removed_at[pre_remove] = 0
+        I.check("removal_reports_success", r1 is True)
     for k, beh in enumerate(watches):
         loop.watch_file(10 + k, mk_watch(k, beh))
     for k, beh in enumerate(idles):
